@@ -162,6 +162,11 @@ func updatePositionForGenEvents(aggs *QueryAggregators) {
 	}
 }
 
+// maxParseExpressions bounds the work of the PEG parsers. The generated parsers backtrack
+// without memoization, so nested parentheses or function calls can take exponential time;
+// the largest 8 KiB query in the test suites needs about 1.5 million expressions.
+const maxParseExpressions = 10_000_000
+
 func parsePipeSearch(searchText string, queryLanguage string, qid uint64) (*ASTNode, *QueryAggregators, []string, error) {
 	var leafNode *ASTNode
 	var res interface{}
@@ -176,9 +181,9 @@ func parsePipeSearch(searchText string, queryLanguage string, qid uint64) (*ASTN
 	//peg parsing to AST tree
 	switch queryLanguage {
 	case "Pipe QL":
-		res, err = Parse("", []byte(searchText))
+		res, err = Parse("", []byte(searchText), MaxExpressions(maxParseExpressions))
 	case "Splunk QL":
-		res, err = spl.Parse("", []byte(searchText))
+		res, err = spl.Parse("", []byte(searchText), spl.MaxExpressions(maxParseExpressions))
 		forceCaseSensitive = false
 	case "Log QL":
 		if hook := hooks.GlobalHooks.LogQLParse; hook != nil {
